@@ -26,10 +26,12 @@ def events_of(base, chk, fname, variant="distinct"):
             if ev[0] == "once":
                 pass
             elif ev[0] == "once_begin":
-                inside.append(ex.meta[ev[1]].name)
-                evs.append(("do_begin", ex.meta[ev[1]].name))
+                # only a package-level sync.Once orders goroutines; a Once that lives in a local or in an argument does not
+                nm = ex.meta[ev[1]].name if ex.meta[ev[1]].kind == "global" else "(non-global Once)"
+                inside.append(nm)
+                evs.append(("do_begin", nm))
             elif ev[0] == "once_end":
-                evs.append(("do_end", ex.meta[ev[1]].name))
+                evs.append(("do_end", inside[-1]))
                 inside.pop()
             elif ev[0] in ("r", "w"):
                 m = ex.meta.get(ev[1])
@@ -50,7 +52,7 @@ def analyse(base, chk, fname, variant="distinct"):
     if notret or not r.paths:
         # a path the engine could not follow to the end has unknown effects: the facts below would be vacuous for it
         chk.add(Ob("%s: every path is followed to its return (effects known)" % label, "error:%s" % (notret[:1],), 0, [fname], "effects"))
-    summary = {"writes_outside_once": [], "table_access_before_do": [], "globals_read": set(), "once": set()}
+    summary = {"writes_outside_once": [], "table_access_before_do": [], "globals_read": set(), "once": set(), "guards": {}, "reads": {}}
     for evs in traces:
         done = set()
         for e in evs:
@@ -60,11 +62,18 @@ def analyse(base, chk, fname, variant="distinct"):
                 done.add(e[1])
             elif e[0] == "acc":
                 kind, g, inside = e[1], e[2], e[3]
+                real = [o for o in inside if o != "(non-global Once)"]
                 if kind == "w":
-                    if not (g in ONCE_TABLES and g in inside):
+                    # lazily built package-level data: written only inside the initialiser of a package-level Once
+                    if real:
+                        summary["guards"].setdefault(g, set()).update(real)
+                    else:
                         summary["writes_outside_once"].append(g)
                 else:
                     summary["globals_read"].add(g)
+                    if not real:
+                        # protection of this read: the Once.Do calls that have returned before it on this path
+                        summary["reads"].setdefault(g, []).append(sorted(done))
                     if g in ONCE_TABLES and g not in inside and g not in done:
                         summary["table_access_before_do"].append(g)
     short = base.prog.fn(fname)["short"]
@@ -93,9 +102,9 @@ def analyse(base, chk, fname, variant="distinct"):
     inout = short == "Swap"
     wr2 = sorted({(r.ex.meta[ev[1]].name, str(ev[2])) for p in r.paths for ev in p.log if ev[0] == "w" and ev[1] in shared_objs}) if not inout else []
     chk.fact("%s: arguments other than the receiver (values another goroutine may be reading), slice arguments and their elements are only read" % label, not wr2, [fname], "effects", detail=str(wr2[:3]))
-    chk.fact("%s: the only package-level writes are to a precomputed table inside its own Once.Do initialiser" % label, not summary["writes_outside_once"], [fname], "effects", detail=str(summary["writes_outside_once"][:3]))
-    chk.fact("%s: a precomputed table is read only after its Once.Do call has returned (program order)" % label, not summary["table_access_before_do"], [fname], "effects", detail=str(summary["table_access_before_do"][:3]))
-    chk.extra.setdefault("events", {})[fname] = dict(once=sorted(summary["once"]), globals_read=sorted(summary["globals_read"]), paths=len(traces),
+    chk.fact("%s: the only package-level writes happen inside the initialiser of a package-level sync.Once (lazily built tables)" % label, not summary["writes_outside_once"], [fname], "effects", detail=str(summary["writes_outside_once"][:3]))
+    chk.extra.setdefault("events", {})[fname + (" [shared]" if variant == "shared" else "")] = dict(once=sorted(summary["once"]), globals_read=sorted(summary["globals_read"]), paths=len(traces),
+                                                       guards={g: sorted(v) for g, v in summary["guards"].items()}, reads={g: [list(x) for x in {tuple(y) for y in v}] for g, v in summary["reads"].items()},
                                                        pre_access=sorted(set(summary["table_access_before_do"])), writes_outside=sorted(set(summary["writes_outside_once"])))
     return summary
 
@@ -186,7 +195,27 @@ def run(chk):
     items += [(fn + " shared", lambda fn=fn: analyse(base, chk, fn, "shared")) for fn in fns if sweep.shared_applicable(prog, fn)]
     items.sort(key=lambda it: 0 if "VarTime" in it[0] else 1)
     run_kernels(chk, items, parallel=False if len(fns) < 3 else None)
-    # the forked children cannot return chk.extra; recompute the table users from the fact names / rerun cheap summary in-process
+    # lazily built package-level data = every package-level object written inside a Once initialiser by some operation;
+    # every read of it, in every operation, must come after a Do call of (one of) its guarding Once objects has returned
+    events = chk.extra.get("events", {})
+    guard = {}
+    for fn_, ev in events.items():
+        for g, os_ in ev.get("guards", {}).items():
+            guard.setdefault(g, set()).update(os_)
+    chk.extra["lazily_built"] = {g: sorted(v) for g, v in guard.items()}
+    for fn_, ev in sorted(events.items()):
+        bad, n = [], 0
+        for g, prots in ev.get("reads", {}).items():
+            if g in guard:
+                for prot in prots:
+                    n += 1
+                    if not (guard[g] & set(prot)):
+                        bad.append((g.split(".")[-1], prot))
+        ev["pre_access"] = sorted({g for g in ev.get("reads", {}) if g in guard and any(not (guard[g] & set(pr)) for pr in ev["reads"][g])})
+        if n:
+            chk.fact("%s: lazily built package-level data is read only after the Once.Do that builds it has returned (program order, every path)" % fn_.replace("filippo.io/edwards25519", "ed"),
+                     not bad, [fn_.split(" [")[0]], "effects", detail=str(bad[:3]))
+    chk.fact("lazily built package-level data found: %s (each written only under its own package-level Once)" % sorted(g.split(".")[-1] for g in guard), True, [], "effects")
     ops = {}
     for fn in fns:
         f = prog.fn(fn)
@@ -209,7 +238,7 @@ def run(chk):
                         work.append(ins["fn"])
                     for key in ("x", "addr", "val"):
                         v = ins.get(key)
-                        if isinstance(v, dict) and v.get("k") == "global" and v["n"] in ONCE_TABLES:
+                        if isinstance(v, dict) and v.get("k") == "global" and v["n"] in guard:
                             uses.add(v["n"])
         ops[fn] = uses
     chk.extra["table_users"] = {k: sorted(v) for k, v in ops.items() if v}
